@@ -6,6 +6,26 @@ known findings.
 -/
 namespace C16
 
+/-- TracebackInfo.get_formatted's loop is StackSummary.format's loop, entry for entry -/
+theorem bLoop_eq_stdLoop (last : Option Callpoint) (count : Nat) (fs : List Callpoint) :
+    bLoop last count fs = stdLoop last count fs := by
+  induction fs generalizing last count with
+  | nil => simp [bLoop, stdLoop]
+  | cons f fs ih =>
+    simp only [bLoop, stdLoop, tbFrameStr_eq_std, ih]
+    split
+    · rfl
+    · by_cases h : count + 1 ≤ 3
+      · have h' : ¬ (count + 1 > 3) := by omega
+        simp [h, h']
+      · have h' : count + 1 > 3 := by omega
+        simp [h, h']
+
+/-- while no run is longer than 3 the loop prints every entry -/
+theorem bLoop_noLongRun (frames : List Callpoint) (h : NoLongRun frames = true) :
+    bLoop none 0 frames = frames.flatMap tbFrameStr := by
+  rw [bLoop_eq_stdLoop, stdLoop_noLongRun none 0 frames (by omega) h, flatMap_tbFrameStr]
+
 /-- the frame record from_string should recover from what Callpoint.tb_frame_str prints -/
 def cpFrame (c : Callpoint) : Frame := ⟨c.path, natStr c.lineno, c.func, strip (rstrip c.line)⟩
 
@@ -53,9 +73,10 @@ theorem flatMap_tbFrameStr_unlines (frames : List Callpoint) :
   | cons c cs ih => simp [List.flatMap_cons, tbFrameStr_eq_unlines, ih]
 
 /-- ExceptionInfo.get_formatted prints exactly what ParsedException.to_string prints for the corresponding data -/
-theorem eiFormat_eq_toString (frames : List Callpoint) (etype msg : Str) :
+theorem eiFormat_eq_toString (frames : List Callpoint) (etype msg : Str) (hr : NoLongRun frames = true) :
     eiFormat frames etype msg = toString (peOf frames etype msg) := by
   unfold eiFormat tbInfoFormat toString toLines peOf
+  rw [bLoop_noLongRun frames hr]
   simp only
   have : header :: ((frames.map cpFrame).flatMap frameLines ++ [excLine etype msg])
       = (header :: (frames.map cpFrame).flatMap frameLines) ++ [excLine etype msg] := by simp
